@@ -23,7 +23,26 @@ import threading
 import time
 
 P_NONE, P_RUN, P_EXIT, P_KILL = 0, 1, 2, 3
-STEP_TIMEOUT = float(os.environ.get("C17_STEP_TIMEOUT", "6"))
+STEP_TIMEOUT = float(os.environ.get("C17_STEP_TIMEOUT", "15"))
+
+
+def state_diffs(J, final, obs):
+    """differences between the model's predicted state and the state observed on the real classes"""
+    diffs = []
+
+    def chk(name, a, b):
+        if a != b:
+            diffs.append(f"{name}: model {a} real {b}")
+    chk("flag", bool(final["flag"]), obs["flag"])
+    chk("lock held", final["lock"] != 63, obs["locked"])
+    chk("sdret", bool(final["sdret"]), obs["sdret"])
+    reg = sorted((final[f"regpos{j}"], j) for j in range(J) if final[f"regpos{j}"] != 7)
+    chk("registry", [j for _, j in reg], obs["registry"])
+    for j in range(J):
+        for v in ("proc", "pf", "exc", "done", "nset", "started", "acc", "rej", "res"):
+            a, b = final[f"{v}{j}"], obs[f"{v}{j}"]
+            chk(f"{v}{j}", a if isinstance(a, bool) else int(a), b if isinstance(b, bool) else int(b))
+    return diffs
 
 
 class World:
@@ -348,8 +367,14 @@ def main():
                                   f"{st['parked_after']} got {got}")
                 break
     res["steps_done"] = k + 1
-    time.sleep(0.05)
-    res["state"] = observe()
+    # threads that ran past their last gate finish asynchronously (harness bookkeeping, Future.set_result): wait until
+    # the observed state equals the model's prediction, or give up after 3 s and report what is there
+    expect = job.get("final")
+    for _ in range(60):
+        time.sleep(0.05)
+        res["state"] = observe()
+        if not expect or not state_diffs(J, expect, res["state"]):
+            break
     res["crashes"] = list(crashes)
     res["client_crash"] = dict(hs["crash"])
     # ---- probe: let every thread run freely, no further environment events
